@@ -330,12 +330,15 @@ def run_script(desc: dict[str, Any], script: list[list[Any]], cfg: Config, *, ve
                 cur.clear()
                 kind = op[0]
                 try:
-                    if kind == "call":
+                    if kind not in ("call", "open") and sess is None:
+                        cur.append(["nosession"])   # the open failed: there is no session object to use
+                    elif kind == "call":
                         v = getattr(conn.proxy, op[1])(a=op[2])
                         cur.append(["value", v])
                     elif kind == "open":
-                        sess = getattr(conn.proxy, op[1])(a=op[2])
+                        sess = None
                         it = None
+                        sess = getattr(conn.proxy, op[1])(a=op[2])
                         if sess.header is not None:
                             cur.append(["header", sess.header.h])
                         cur.append(["opened"])
